@@ -43,6 +43,12 @@ pub fn battery<Ty: EdgeType, Ix: IndexType>(g: &Gr<Ty, Ix>) -> Vec<String> {
     if er != want { v.push("edge-references-mismatch".into()); }
     if g.node_indices().map(|x| x.index()).collect::<Vec<_>>() != (0..g.node_count()).collect::<Vec<_>>() { v.push("node-indices-mismatch".into()); }
     if g.edge_weights().map(|w| *w as i64).collect::<Vec<_>>() != el.chunks(3).map(|c| c[2]).collect::<Vec<_>>() { v.push("edge-weights-mismatch".into()); }
+    // double-ended iteration, size hints and indexing agree with the forward lists
+    use petgraph::visit::{IntoEdgeReferences, IntoNodeReferences};
+    if !crate::enc::rev_ok(g.node_indices()) || !crate::enc::rev_ok(g.edge_indices()) || !crate::enc::rev_ok(g.node_references())
+        || !crate::enc::rev_ok(g.edge_references()) { v.push("back-iteration-mismatch".into()); }
+    if g.node_indices().any(|i| Some(&g[i]) != g.node_weight(i)) || g.edge_indices().any(|e| Some(&g[e]) != g.edge_weight(e)) { v.push("index-operator-mismatch".into()); }
+    if g.node_indices().len() != g.node_count() || g.edge_indices().len() != g.edge_count() { v.push("exact-size-mismatch".into()); }
     v
 }
 
